@@ -439,12 +439,28 @@ pub fn gen(ctx: &mut Ctx) {
         ctx.line(&format!("js.b64 {}", hexf(&b)), &format!("{} {}", hexf(enc.as_bytes()), match back { Ok(v) => hexf(&v), Err(_) => "err".into() }));
     }
     // ---- client data: member order after a parse / re-serialise cycle
-    for _ in 0..(if ctx.thorough { 600 } else { 80 }) {
+    for _ in 0..(if ctx.thorough { 1500 } else { 250 }) {
         let mut members: Vec<(String, Value)> = vec![("type".into(), json!(*ctx.rng.pick(&["webauthn.get", "webauthn.create"]))), ("challenge".into(), json!(b64u(&ctx.rng.bytes(16)))), ("origin".into(), json!("https://example.com"))];
         if ctx.rng.below(3) != 0 { members.push(("crossOrigin".into(), json!(ctx.rng.bool()))); }
+        // the refusing branches and the corners of the flattened map: another type string, a crossOrigin that is null or no
+        // boolean, a required member missing or of another kind, a named member given twice, an unknown name given twice
+        match ctx.rng.below(16) {
+            0 => { members[0].1 = json!(*ctx.rng.pick(&["payment.get", "webauthn.other", "", "WEBAUTHN.GET"])); }
+            1 => { members.retain(|(n, _)| n != "crossOrigin"); members.push(("crossOrigin".into(), ctx.rng.pick(&[json!(null), json!("true"), json!(1), json!([true])]).clone())); }
+            2 => { let i = ctx.rng.below(3) as usize; members.remove(i); }
+            3 => { let i = 1 + ctx.rng.below(2) as usize; members[i].1 = ctx.rng.pick(&[json!(7), json!(null), json!(["x"])]).clone(); }
+            _ => {}
+        }
         for _ in 0..ctx.rng.below(5) { let k = format!("{}{}", ctx.rng.pick(&["tokenBinding", "extra", "z", "a", "\u{e9}", "topOrigin"]), ctx.rng.below(50)); let v = unknown_value(ctx); if !members.iter().any(|(n, _)| *n == k) { members.push((k, v)); } }
         // any key order on the way in
         for i in (1..members.len()).rev() { let j = ctx.rng.below(i as u64 + 1) as usize; members.swap(i, j); }
+        if !members.is_empty() && ctx.rng.below(6) == 0 {
+            // a name given twice (a named one is a duplicate-field error; an unknown one keeps its first place and its last value)
+            let (k, _) = members[ctx.rng.below(members.len() as u64) as usize].clone();
+            let v = if ctx.rng.bool() { unknown_value(ctx) } else { json!("https://example.com") };
+            let at = ctx.rng.below(members.len() as u64 + 1) as usize;
+            members.insert(at, (k, v));
+        }
         let doc = format!("{{{}}}", members.iter().map(|(k, v)| format!("{}:{}", serde_json::to_string(k).unwrap(), v)).collect::<Vec<_>>().join(","));
         let r = guarded(|| serde_json::from_str::<CollectedClientData>(&doc).map(|c| serde_json::to_string(&c).unwrap()));
         let obs = match r { None => "panic".to_string(), Some(Ok(out)) => format!("ok:{}", hexf(out.as_bytes())), Some(Err(_)) => "err".to_string() };
